@@ -419,12 +419,23 @@ func (f *Flooder) floodAdvertisementEncrypted(
 	encPath *protocol.EncryptedData,
 	seenBy []identity.AgentID,
 ) {
+	// The path and seen-by lists carry a one-byte count on the wire. A list of more than
+	// maxWireAgents entries cannot be represented (the count would wrap and the receiver
+	// would decode a shorter list, losing the hop count and the loop protection), so such
+	// an advertisement is not forwarded any further.
+	if len(seenBy) > maxWireAgents {
+		return
+	}
+
 	// Extend the path if it's plaintext (normal case)
 	// For encrypted paths (legacy), forward as-is
 	fwdEncPath := encPath
 	if encPath != nil && !encPath.Encrypted {
 		// Decode existing path, prepend our ID, re-encode
 		existingPath, _ := protocol.DecodePath(encPath.Data)
+		if len(existingPath)+1 > maxWireAgents {
+			return
+		}
 		newPath := make([]identity.AgentID, len(existingPath)+1)
 		newPath[0] = f.localID
 		copy(newPath[1:], existingPath)
@@ -607,6 +618,10 @@ func (f *Flooder) AnnounceLocalRoutes() {
 // maxRoutesPerAdvertise is the largest route count the 1-byte count field of
 // ROUTE_ADVERTISE can carry.
 const maxRoutesPerAdvertise = 255
+
+// maxWireAgents is the largest number of agent IDs the 1-byte count of a path or
+// seen-by list can carry.
+const maxWireAgents = 255
 
 // advertiseHeadroom is the payload space a locally built ROUTE_ADVERTISE leaves free so that
 // agents forwarding it can extend the path and seen-by lists (32 bytes per hop) without
@@ -798,6 +813,18 @@ func (f *Flooder) SendFullTable(peerID identity.AgentID) {
 			path = append([]identity.AgentID{f.localID}, domainOriginRoutes[0].Path...)
 		default:
 			path = []identity.AgentID{f.localID}
+		}
+
+		// A route that already sits at the hop limit is not replayed: the new peer would be
+		// beyond the limit, and a path of more than maxWireAgents agents does not fit the
+		// one-byte count of the wire format (with max_hops = 255 the receiver would decode
+		// an empty path and the hop count would start again).
+		limit := maxWireAgents
+		if f.cfg.MaxHops > 0 && f.cfg.MaxHops < limit {
+			limit = f.cfg.MaxHops
+		}
+		if len(path) > limit {
+			continue
 		}
 
 		// Get display name for origin agent.
